@@ -202,6 +202,9 @@ fn check_reload(ctx: &Ctx, what: &str, bytes: &[u8], model: &MDoc, max_xref_objs
 /// a hard fault at any offset gives Err + prefix; the same document then saves
 /// fine to a healthy sink.
 pub fn c19_sweep(ctx: &Ctx, out: &mut RunOut) -> Result<(), Violation> {
+    for k in ["fault-in-header", "fault-in-object", "fault-in-stream-body", "fault-in-xref", "fault-in-trailer", "fault-in-startxref", "fault-in-incremental-prefix", "eintr-right-before-hard-fault", "fault-kind-zero-write", "fault-kind-hard-error", "retry-after-fault", "full-offset-sweeps"] {
+        ctx.count_n(k, 0); // registered so that a probe that never fires shows up as zero in the evidence
+    }
     let cfg = small_cfg(ctx);
     let (target, model, base) = build_target(ctx, cfg)?;
     let incr = matches!(target, Target::Incr(_));
@@ -366,6 +369,9 @@ pub fn c19_sweep(ctx: &Ctx, out: &mut RunOut) -> Result<(), Violation> {
 
 /// C19 on the real file sink: `save(path)` must report kernel-level failures.
 pub fn c19_file(ctx: &Ctx, out: &mut RunOut) -> Result<(), Violation> {
+    for k in ["enospc-mid-save", "enospc-in-final-flush", "create-fails-enoent", "create-fails-eisdir"] {
+        ctx.count_n(k, 0); // registered so that a probe that never fires shows up as zero in the evidence
+    }
     let mut cfg = gen::draw_cfg(ctx);
     // below and above BufWriter's 8 KiB buffer, so the error surfaces once in
     // into_inner() and once in the middle of save_internal
